@@ -350,6 +350,48 @@ theorem dropCore_inv (rule : Rule) (dt0 : T) (q0 : Int) (n : Nat) (dense : Array
     simp only [List.append_nil]
     rw [← Array.length_toList, List.take_length]
 
+variable (inp : UIn K R T)
+
+/-- the rows the U-segments of the call list, in the order of the routine -/
+def rowsOf (inp : UIn K R T) : List Nat :=
+  segRows inp.jcol inp.nseg inp.segrep inp.repfnz inp.xsup inp.supno inp.lsub inp.xlsub
+
+/-- the column on entry: the `(perm_r[row], value)` pairs of the listed rows (a row listed again counts with value 0) -/
+def colPairs : List (Int × K) := (visits ops.zeroK inp.dense (rowsOf inp)).map fun e => (inp.permR[e.1]!, e.2)
+
+/-- the column on exit: `(usub[i], ucol[i])` for `xusub[jcol] <= i < xusub[jcol+1]` -/
+def stored (o : UOut K R T) : List (Int × K) :=
+  (List.range o.cnt).map fun i => (o.usub[(inp.xusub[inp.jcol]!).toNat + i]!, o.ucol[(inp.xusub[inp.jcol]!).toNat + i]!)
+
+theorem stored_eq (hU : (inp.xusub[inp.jcol]!).toNat + (rowsOf inp).length ≤ inp.ucol.size)
+    (hS : (inp.xusub[inp.jcol]!).toNat + (rowsOf inp).length ≤ inp.usub.size) :
+    stored inp (copyToUcol ops inp) = (copyToUcol ops inp).s2.a.toList.take (copyToUcol ops inp).s2.cnt := by
+  obtain ⟨ks, hP, hk, -, -, -, -, -, -, hsz, hcnt, -⟩ := dropCore_inv ops inp.milu inp.permR inp.rule inp.dropTol inp.quota inp.n
+    inp.dense inp.work (rowsOf inp)
+  have hm : (dropCore ops inp.rule inp.milu inp.dropTol inp.quota inp.n inp.permR inp.dense inp.work (rowsOf inp)).1.kept.size
+      ≤ (rowsOf inp).length := by
+    rw [← Array.length_toList, hk, List.length_map, List.length_reverse, ← visits_length ops.zeroK (rowsOf inp) inp.dense, ← hP.length_eq]
+    simp
+  rw [← range_map_get_eq_take _ _ (by
+    show (dropCore ops inp.rule inp.milu inp.dropTol inp.quota inp.n inp.permR inp.dense inp.work (rowsOf inp)).2.1.cnt ≤
+      (dropCore ops inp.rule inp.milu inp.dropTol inp.quota inp.n inp.permR inp.dense inp.work (rowsOf inp)).2.1.a.size
+    omega)]
+  unfold stored
+  apply List.map_congr_left
+  intro i hi
+  have hi' : i < (dropCore ops inp.rule inp.milu inp.dropTol inp.quota inp.n inp.permR inp.dense inp.work (rowsOf inp)).2.1.cnt := by
+    exact List.mem_range.mp hi
+  have g1 := (foldl_set_get (fun i => ((dropCore ops inp.rule inp.milu inp.dropTol inp.quota inp.n inp.permR inp.dense inp.work (rowsOf inp)).2.1.a[i]!).1)
+    (inp.xusub[inp.jcol]!).toNat inp.usub _ (by omega : _ + (dropCore ops inp.rule inp.milu inp.dropTol inp.quota inp.n inp.permR inp.dense inp.work (rowsOf inp)).1.kept.size ≤ _)).2
+      ((inp.xusub[inp.jcol]!).toNat + i)
+  have g2 := (foldl_set_get (fun i => ((dropCore ops inp.rule inp.milu inp.dropTol inp.quota inp.n inp.permR inp.dense inp.work (rowsOf inp)).2.1.a[i]!).2)
+    (inp.xusub[inp.jcol]!).toNat inp.ucol _ (by omega : _ + (dropCore ops inp.rule inp.milu inp.dropTol inp.quota inp.n inp.permR inp.dense inp.work (rowsOf inp)).1.kept.size ≤ _)).2
+      ((inp.xusub[inp.jcol]!).toNat + i)
+  rw [if_pos (by omega)] at g1 g2
+  simp only [Nat.add_sub_cancel_left] at g1 g2
+  show ((copyToUcol ops inp).usub[_]!, (copyToUcol ops inp).ucol[_]!) = _
+  exact Prod.ext g1 g2
+
 end
 
 /-! ### exact arithmetic -/
